@@ -40,7 +40,7 @@ id="$1"; tier="${2:-quick}"
 case "$id" in
   C14)
     overlay_test c14 client TestVerifC14;;
-  C10|C11|C12|C16|C17|C18|C19)
+  C01|C03|C05|C06|C09|C15|C10|C11|C12|C16|C17|C18|C19)
     build_s
     exec bin/verifs "$id" "$tier";;
   *) echo "HARNESS-ERROR: unknown property $id"; exit 3;;
